@@ -132,6 +132,7 @@ func inlineRound(p *Prog, baseline map[string]bool) (map[string][]byte, []string
 					ctx.callerKey = caller.Key
 				}
 				ctx.collectClosures()
+				ctx.etaExpandArgs()
 				ctx.walkStmts(fd.Body)
 				ctx.finishClosures()
 				edits = append(edits, ctx.edits...)
@@ -348,6 +349,120 @@ func (c *inlCtx) collectClosures() {
 			c.inlined = append(c.inlined, c.callerKey+"$"+o.Name()+" (as a value)")
 		}
 	}
+}
+
+// etaExpandArgs: a function or method of the same package that the reference tree does not have and that is handed to a
+// call as a value (`xs.Range(visit)`, `WithHandler(op.handle)`) is written as a literal that calls it
+// (`func(a T) R { return visit(a) }`); the call inside is inlined in the next round. The literal denotes the same
+// function; for a method value the receiver must be a plain identifier that the caller never assigns, so that
+// evaluating it at call time instead of at bind time makes no difference.
+func (c *inlCtx) etaExpandArgs() {
+	info := c.pk.TypesInfo
+	imports := map[string]string{}
+	for _, is := range c.file.Imports {
+		path := strings.Trim(is.Path.Value, `"`)
+		if is.Name != nil {
+			imports[path] = is.Name.Name
+			continue
+		}
+		if ip := c.pk.Imports[path]; ip != nil {
+			imports[path] = ip.Name
+		}
+	}
+	assignedInCaller := func(o types.Object) bool {
+		found := false
+		ast.Inspect(c.caller.Body, func(n ast.Node) bool {
+			switch t := n.(type) {
+			case *ast.AssignStmt:
+				for _, l := range t.Lhs {
+					if id, ok := ast.Unparen(l).(*ast.Ident); ok && info.ObjectOf(id) == o && t.Tok != token.DEFINE {
+						found = true
+					}
+				}
+			case *ast.UnaryExpr:
+				if id, ok := ast.Unparen(t.X).(*ast.Ident); ok && t.Op == token.AND && info.ObjectOf(id) == o {
+					found = true
+				}
+			}
+			return !found
+		})
+		return found
+	}
+	ast.Inspect(c.caller.Body, func(n ast.Node) bool {
+		call, isCall := n.(*ast.CallExpr)
+		if !isCall {
+			return true
+		}
+		for _, a := range call.Args {
+			var fn *types.Func
+			switch t := ast.Unparen(a).(type) {
+			case *ast.Ident:
+				fn, _ = info.Uses[t].(*types.Func)
+			case *ast.SelectorExpr:
+				if sel := info.Selections[t]; sel != nil && sel.Kind() == types.MethodVal {
+					rid, isId := ast.Unparen(t.X).(*ast.Ident)
+					if !isId {
+						continue
+					}
+					if ro := info.ObjectOf(rid); ro == nil || assignedInCaller(ro) {
+						continue
+					}
+					fn, _ = sel.Obj().(*types.Func)
+				}
+			}
+			if fn == nil || fn.Pkg() != c.pk.Types {
+				continue
+			}
+			f := c.p.byObj[fn.Origin()]
+			if f == nil || f.Decl.Body == nil || c.baseline[f.Key] || f.Decl == c.caller {
+				continue
+			}
+			sig, _ := fn.Type().(*types.Signature)
+			if sig == nil || sig.Variadic() || sig.TypeParams() != nil || sig.RecvTypeParams() != nil {
+				continue
+			}
+			typeOK := true
+			qual := func(pkg *types.Package) string {
+				if pkg == c.pk.Types {
+					return ""
+				}
+				if nm, ok := imports[pkg.Path()]; ok && nm != "_" && nm != "." {
+					return nm
+				}
+				typeOK = false
+				return pkg.Name()
+			}
+			var params, args []string
+			for i := 0; i < sig.Params().Len(); i++ {
+				pn := fmt.Sprintf("eta%d_p%d", c.tf.Line(a.Pos()), i)
+				params = append(params, pn+" "+types.TypeString(sig.Params().At(i).Type(), qual))
+				args = append(args, pn)
+			}
+			var results []string
+			for i := 0; i < sig.Results().Len(); i++ {
+				results = append(results, types.TypeString(sig.Results().At(i).Type(), qual))
+			}
+			if !typeOK {
+				continue
+			}
+			res := ""
+			switch len(results) {
+			case 0:
+			case 1:
+				res = " " + results[0]
+			default:
+				res = " (" + strings.Join(results, ", ") + ")"
+			}
+			ret := ""
+			if len(results) > 0 {
+				ret = "return "
+			}
+			text := fmt.Sprintf("func(%s)%s { %s%s(%s) }", strings.Join(params, ", "), res, ret, c.text(a), strings.Join(args, ", "))
+			c.edits = append(c.edits, inlineEdit{start: c.tf.Offset(a.Pos()), end: c.tf.Offset(a.End()), text: text})
+			c.inlined = append(c.inlined, c.callerKey+" <- "+f.Key+" (as a value)")
+		}
+		return true
+	})
 }
 
 // finishClosures removes the definition of a closure all of whose calls were inlined (its body would otherwise stay
@@ -825,6 +940,17 @@ func (c *inlCtx) tryCall(st ast.Stmt, call *ast.CallExpr, kind callKind, as *ast
 		}
 		return false
 	}
+	// a method expression (`(*T).m`, `T.m`) is a constant function value
+	methodExpr := func(e ast.Expr) (string, bool) {
+		sel, ok := ast.Unparen(e).(*ast.SelectorExpr)
+		if !ok {
+			return "", false
+		}
+		if s := info.Selections[sel]; s != nil && s.Kind() == types.MethodExpr {
+			return sel.Sel.Name, true
+		}
+		return "", false
+	}
 	// names declared inside the callee body (capture check for substituted arguments)
 	declared := map[string]bool{}
 	ast.Inspect(body, func(n ast.Node) bool {
@@ -1126,9 +1252,70 @@ func (c *inlCtx) tryCall(st ast.Stmt, call *ast.CallExpr, kind callKind, as *ast
 		c.skip(call, name, "internal: identifier count mismatch")
 		return
 	}
+	// a parameter bound to a method expression and used only as the function of calls: `fn(x, a)` with
+	// fn = (*T).m is written `x.m(a)`
+	methParam := map[types.Object]string{}
+	for _, b := range binds {
+		mname, isME := methodExpr(b.arg)
+		if !isME || b.obj == nil || assigned(b.obj) {
+			continue
+		}
+		onlyCalled := true
+		var stack []ast.Node
+		ast.Inspect(body, func(n ast.Node) bool {
+			if n == nil {
+				stack = stack[:len(stack)-1]
+				return true
+			}
+			if id, ok := n.(*ast.Ident); ok && info.Uses[id] == b.obj {
+				parent, _ := stack[len(stack)-1].(*ast.CallExpr)
+				if parent == nil || parent.Fun != ast.Expr(id) || len(parent.Args) == 0 || parent.Ellipsis.IsValid() {
+					onlyCalled = false
+				}
+			}
+			stack = append(stack, n)
+			return true
+		})
+		if onlyCalled {
+			methParam[b.obj] = mname
+		}
+	}
+	if len(methParam) > 0 {
+		var origCalls, freshCalls []*ast.CallExpr
+		ast.Inspect(body, func(n ast.Node) bool {
+			if cl, ok := n.(*ast.CallExpr); ok {
+				origCalls = append(origCalls, cl)
+			}
+			return true
+		})
+		ast.Inspect(fresh, func(n ast.Node) bool {
+			if cl, ok := n.(*ast.CallExpr); ok {
+				freshCalls = append(freshCalls, cl)
+			}
+			return true
+		})
+		if len(origCalls) != len(freshCalls) {
+			c.skip(call, name, "internal: call count mismatch")
+			return
+		}
+		for i, oc := range origCalls {
+			id, isId := oc.Fun.(*ast.Ident)
+			if !isId {
+				continue
+			}
+			if mname, ok := methParam[info.Uses[id]]; ok {
+				fc := freshCalls[i]
+				fc.Fun = &ast.SelectorExpr{X: &ast.ParenExpr{X: fc.Args[0]}, Sel: ast.NewIdent(mname)}
+				fc.Args = fc.Args[1:]
+			}
+		}
+	}
 	substText := map[types.Object]string{}
 	var bindDecls []string
 	for _, b := range binds {
+		if _, isMP := methParam[b.obj]; isMP {
+			continue
+		}
 		if b.subst {
 			at := c.text(b.arg)
 			if at != b.name {
